@@ -406,6 +406,24 @@ func init() {
 					cases = append(cases, &BCase{ID: fmt.Sprintf("M/repeated-neighbours=%d", i), Cfg: cfg, Sessions: []BSession{{Ops: []ProbeOp{op("get", "consumer"), opTag("tagged", "t"), opTag("tagged", "u"), op("get", "sa"), op("get", "sb"), op("get", "dep"), op("counters", "")}}}})
 				}
 			}
+			// (N) two-digit counts (the 10th, 11th, 12th of everything, where the order of indices as text differs from their
+			// order as numbers): twelve decorators on one tag, twelve tags on one service each with its decorator, twelve carriers
+			// with priorities 1..12, twelve arguments / calls on the decorated service
+			{
+				cfg := &Cfg{Meta: stdMeta(), Params: []Param{{"p", "pv"}}}
+				many := Service{Name: "many", Constructor: P("pk.New"), Tags: []Tag{{Name: "t"}}}
+				for i := 0; i < 12; i++ {
+					cfg.Decorators = append(cfg.Decorators, Decorator{Tag: "t", Decorator: []string{"pk.Dec1", "pk.Dec2", "pk.Dec3"}[i%3], Args: []any{i, fmt.Sprintf("d%d", i)}})
+					many.Args = append(many.Args, i)
+					many.Calls = append(many.Calls, Call{Method: []string{"Set1", "With1"}[i%2], Args: []any{fmt.Sprintf("c%d", i)}, Immutable: []*bool{nil, P(true)}[i%2]})
+					tn := fmt.Sprintf("u%d", i)
+					many.Tags = append(many.Tags, Tag{Name: tn, Priority: P(12 - i)})
+					cfg.Decorators = append(cfg.Decorators, Decorator{Tag: tn, Decorator: "pk2.Dec1", Args: []any{tn}})
+					cfg.Services = append(cfg.Services, Service{Name: fmt.Sprintf("c%d", i), Constructor: P("pk.New3"), Args: []any{i}, Tags: []Tag{{Name: "prio", Priority: P(i + 1)}}})
+				}
+				cfg.Services = append(cfg.Services, many, Service{Name: "consumer", Constructor: P("pk2.New"), Args: []any{"!tagged t", "!tagged prio", "!tagged u10", "!tagged u2"}})
+				cases = append(cases, &BCase{ID: "N/two-digit-counts", Cfg: cfg, Sessions: []BSession{{Ops: []ProbeOp{op("get", "consumer"), op("get", "many"), opTag("tagged", "prio"), opTag("tagged", "t"), opTag("tagged", "u11"), op("counters", "")}}}})
+			}
 			// (D) scopes of carriers
 			scopes := []*string{nil, P("shared"), P("non_shared"), P("contextual")}
 			for a := 0; a < 4; a++ {
